@@ -130,6 +130,7 @@ func (r *Receiver) SegmentHandlerFunc(w http.ResponseWriter, req *http.Request) 
 	masterSegDur := ch.masterSegDuration
 	masterTimeShift := ch.masterTimeShift
 	masterSeqNrShift := ch.masterSeqNrShift
+	maxNrBufSegs := ch.maxNrBufSegs
 	ch.mu.RUnlock()
 
 	rsd := &recSegData{name: stream.trName,
@@ -236,8 +237,8 @@ func (r *Receiver) SegmentHandlerFunc(w http.ResponseWriter, req *http.Request) 
 						}
 					}
 				}
-				if ch.maxNrBufSegs > 0 {
-					deleteSegPath := filepath.Join(stream.trDir, fmt.Sprintf("%d%s", rsd.seqNr-ch.maxNrBufSegs, stream.ext))
+				if maxNrBufSegs > 0 {
+					deleteSegPath := filepath.Join(stream.trDir, fmt.Sprintf("%d%s", rsd.seqNr-maxNrBufSegs, stream.ext))
 					if fileExists(deleteSegPath) {
 						log.Debug("Deleting old segment", "path", deleteSegPath)
 						err = os.Remove(deleteSegPath)
